@@ -14,11 +14,12 @@ import (
 )
 
 type (
-	Time     = time.Time
-	Duration = time.Duration
-	Month    = time.Month
-	Weekday  = time.Weekday
-	Location = time.Location
+	Time       = time.Time
+	Duration   = time.Duration
+	Month      = time.Month
+	Weekday    = time.Weekday
+	Location   = time.Location
+	ParseError = time.ParseError
 )
 
 const (
@@ -30,12 +31,58 @@ const (
 	Hour        = time.Hour
 	RFC3339     = time.RFC3339
 	RFC3339Nano = time.RFC3339Nano
+	// the rest of package time's constants, so that a file under test that starts using one still compiles
+	Layout     = time.Layout
+	ANSIC      = time.ANSIC
+	UnixDate   = time.UnixDate
+	RubyDate   = time.RubyDate
+	RFC822     = time.RFC822
+	RFC822Z    = time.RFC822Z
+	RFC850     = time.RFC850
+	RFC1123    = time.RFC1123
+	RFC1123Z   = time.RFC1123Z
+	Kitchen    = time.Kitchen
+	Stamp      = time.Stamp
+	StampMilli = time.StampMilli
+	StampMicro = time.StampMicro
+	StampNano  = time.StampNano
+	DateTime   = time.DateTime
+	DateOnly   = time.DateOnly
+	TimeOnly   = time.TimeOnly
+	January    = time.January
+	February   = time.February
+	March      = time.March
+	April      = time.April
+	May        = time.May
+	June       = time.June
+	July       = time.July
+	August     = time.August
+	September  = time.September
+	October    = time.October
+	November   = time.November
+	December   = time.December
+	Sunday     = time.Sunday
+	Monday     = time.Monday
+	Tuesday    = time.Tuesday
+	Wednesday  = time.Wednesday
+	Thursday   = time.Thursday
+	Friday     = time.Friday
+	Saturday   = time.Saturday
 )
 
 var UTC = time.UTC
+var Local = time.Local
 
-func Unix(sec, nsec int64) Time     { return time.Unix(sec, nsec) }
-func UnixMilli(ms int64) Time       { return time.UnixMilli(ms) }
+func UnixMicro(us int64) Time                  { return time.UnixMicro(us) }
+func Parse(layout, value string) (Time, error) { return time.Parse(layout, value) }
+func ParseInLocation(l, v string, loc *Location) (Time, error) {
+	return time.ParseInLocation(l, v, loc)
+}
+func LoadLocation(name string) (*Location, error) { return time.LoadLocation(name) }
+func FixedZone(name string, offset int) *Location { return time.FixedZone(name, offset) }
+
+func Unix(sec, nsec int64) Time { return time.Unix(sec, nsec) }
+func UnixMilli(ms int64) Time   { return time.UnixMilli(ms) }
 func Date(y int, m Month, d, h, mi, s, ns int, l *Location) Time {
 	return time.Date(y, m, d, h, mi, s, ns, l)
 }
@@ -241,6 +288,11 @@ func Find(kind, sub string) []*Waiter {
 // WithTimeout is context.WithTimeout on the virtual clock: the returned context ends with
 // context.DeadlineExceeded when the harness fires its timer (label "ctx:<creator>", e.g. through FireDue once
 // the virtual clock has passed creation + d), or with the parent / on cancel as usual.
+// WithDeadline: a deadline on the virtual clock.
+func WithDeadline(parent context.Context, t Time) (context.Context, context.CancelFunc) {
+	return WithTimeout(parent, t.Sub(Now()))
+}
+
 func WithTimeout(parent context.Context, d Duration) (context.Context, context.CancelFunc) {
 	inner, cancel := context.WithCancel(parent)
 	c := &vctx{Context: inner}
